@@ -62,6 +62,8 @@ def run_case(case):
     r0 = recs[0]
     level = case["level"]
     tags = [r0["kind"], r0["op"], "side:" + r0["side"], "level:" + level] + sorted(set(t for r in recs for t in r["tags"]))
+    if case.get("viaquery"):
+        tags.append("after_value_query")
     if len(recs) > 1:
         tags.append("array")
     if r0["cls"] != "ok":
@@ -75,7 +77,9 @@ def run_case(case):
             if kind == "op":
                 una, unb = ("m", "m") if op in ("add", "sub") else ("m", "s")
                 a = _plain([r["a"] for r in recs]) if side == "nm" else _mk(level, [r["a"] for r in recs], una)
-                if op in ("add", "sub", "mul", "div"):
+                if side == "self":
+                    b = a                                   # the very same object on both sides
+                elif op in ("add", "sub", "mul", "div"):
                     b = _plain([r["b"] for r in recs]) if side == "mn" else _mk(level, [r["b"] for r in recs], unb)
                 if (side in ("nm", "mn")) and level == "Q" and op in ("add", "sub"):
                     # a plain number can only be added to a dimensionless quantity
@@ -97,7 +101,19 @@ def run_case(case):
                     res = a ** _f(r0["p"]) if r0["p"][1] != 1 or case.get("floatexp") else a ** int(_f(r0["p"]))
             elif kind == "conv":
                 res = _mk("Q", [r["a"] for r in recs], ua)
+                if case.get("viaquery"):                    # look at the value in the target unit first (read-only)
+                    res.value(ub)
                 res.to(ub)
+            elif kind == "query":
+                res = _mk("Q", [r["a"] for r in recs], ua)
+                res.value(ub)
+                res.value(ub)
+            elif kind == "qcons":
+                res = _mk("Q", [r["a"] for r in recs], f"{ua}/{ub}")
+            elif kind == "qdiv":
+                a = _mk("Q", [r["a"] for r in recs], ua)
+                b = _mk("Q", [r["b"] for r in recs], ub)
+                res = a / b
             elif kind == "qsum":
                 a = _mk("Q", [r["a"] for r in recs], ua)
                 b = _mk("Q", [r["b"] for r in recs], ub)
@@ -185,6 +201,8 @@ def cases_from_records(recs, arrays=True):
                 cases.append(dict(recs=[r], level="Q", floatexp=True))
         else:
             cases.append(dict(recs=[r], level="Q"))
+            if r["kind"] == "conv":
+                cases.append(dict(recs=[r], level="Q", viaquery=True))
     if arrays:
         groups = {}
         for r in recs:
@@ -196,6 +214,8 @@ def cases_from_records(recs, arrays=True):
                 if g[0]["kind"] == "op":
                     cases.append(dict(recs=g, level="M"))
                 cases.append(dict(recs=g, level="Q"))
+                if g[0]["kind"] == "conv":
+                    cases.append(dict(recs=g, level="Q", viaquery=True))
     return cases
 
 
@@ -219,8 +239,17 @@ def table_scenarios(rnd, n):
         cl = rnd.choice(classes)
         ua, ub = rnd.choice(cl), rnd.choice(cl)
         used |= {ua, ub}
-        if rnd.random() < 0.5:
+        r = rnd.random()
+        if r < 0.3:
             scen.append(dict(kind="conv", op="to", side="q", a=mag(), b={"v": [1, 1], "e": []}, p=[1, 1], ua=ua, ub=ub))
+        elif r < 0.4:
+            scen.append(dict(kind="query", op="value", side="q", a=mag(), b={"v": [1, 1], "e": []}, p=[1, 1], ua=ua, ub=ub))
+        elif r < 0.5:
+            scen.append(dict(kind="qcons", op="ctor", side="q", a=mag(), b={"v": [1, 1], "e": []}, p=[1, 1], ua=ua, ub=ub))
+        elif r < 0.7:
+            b = mag()
+            b["v"][0] = abs(b["v"][0]) + 500          # divisor interval stays away from zero (|e| <= 400)
+            scen.append(dict(kind="qdiv", op="div", side="qq", a=mag(), b=b, p=[1, 1], ua=ua, ub=ub))
         else:
             scen.append(dict(kind="qsum", op=rnd.choice(["add", "sub"]), side="qq", a=mag(), b=mag(), p=[1, 1], ua=ua, ub=ub))
     return {"units": {u: {"dim": list(dimof[u]), "fac": []} for u in sorted(used)}, "scenarios": scen}
